@@ -266,7 +266,10 @@ def run_one(case, slow=1.0):
         proc = subprocess.Popen(args, stdin=r, stdout=subprocess.PIPE, stderr=subprocess.DEVNULL, env=env,
                                 preexec_fn=lambda: (os.setsid(), fcntl.ioctl(slave, termios.TIOCSCTTY, 0)), close_fds=False)
         os.close(r)
-        os.write(w, ("\n".join(items) + "\n").encode())
+        try:
+            os.write(w, ("\n".join(items) + "\n").encode())
+        except OSError:
+            pass        # sk closed its input before reading everything (e.g. --select-1 decided, or it refused its arguments): not an error of the harness
         os.close(w)
 
         def settle(quiet, limit, need_output=False):
